@@ -41,7 +41,9 @@ class DVSession(object):
             def one(v):
                 return DV(tags_of(v) | extra, kind if kind == 'c' else ('c' if getattr(v, 'kind', 'f') == 'c' else 'f'))
             if isinstance(x, Arr):
-                return Arr(x.shape, [one(v) for v in x.items()])
+                res = Arr(x.shape, [one(v) for v in x.items()])
+                res.memrank = x.mem_rank()            # an elementwise function keeps the memory layout of its argument
+                return res
             return one(x)
         return f
 
